@@ -100,6 +100,9 @@ impl Prop for C15 {
     fn cases(&self, tier: Tier) -> u32 {
         tier.pick(1_500, 20_000)
     }
+    fn release_fraction(&self, tier: Tier) -> f64 {
+        tier.pick(0.3, 0.5)
+    }
     fn max_shrink_iters(&self) -> u32 {
         300
     }
@@ -109,7 +112,7 @@ impl Prop for C15 {
                 .prop_map(|(content_len, kind, author, created_at)| Step::Store { content_len, kind, author, created_at }),
             1 => content_len_strategy().prop_map(|content_len| Step::StoreOnThread { content_len }),
             4 => (any::<u16>(), 0u8..3).prop_map(|(of, how)| Step::TakeRef { of, how }),
-            2 => (1u8..4, prop::sample::select(vec![200u32, 900, 3000])).prop_map(|(times, content_len)| Step::GrowBy { times, content_len }),
+            2 => (1u8..4, prop::sample::select(if cfg!(debug_assertions) { vec![200u32, 900, 3000] } else { vec![400_000u32, 1_500_000, 3_000_000] })).prop_map(|(times, content_len)| Step::GrowBy { times, content_len }),
             1 => (2u8..5, 8u8..40).prop_map(|(threads, per_thread)| Step::ConcurrentStores { threads, per_thread }),
         ];
         (prop::collection::vec(step, 1..25), prop::bool::weighted(0.8))
@@ -145,6 +148,7 @@ impl Prop for C15 {
                 tags: vec![vec!["t".to_string(), format!("s{seq}")]],
                 content_len,
                 idc: IdChoice::Hash,
+                many: 0,
             };
             let i = w.intern(ge.to_model(), Some(&ge));
             if c.force_move {
@@ -263,6 +267,7 @@ impl Prop for C15 {
                                 tags: vec![vec!["t".to_string(), format!("c15-{stepno}-{t}-{k}")]],
                                 content_len: 40 + ((k as u32 * 53 + t as u32 * 17) % 500),
                                 idc: IdChoice::Hash,
+                                many: 0,
                             };
                             b.push(w.intern(ge.to_model(), Some(&ge)));
                         }
@@ -295,7 +300,7 @@ impl Prop for C15 {
                             hs.into_iter().map(|h| h.join().unwrap_or_default()).collect()
                         })
                     };
-                    let grown = ((w.map_len().saturating_sub(len_before)) / 2048) as usize;
+                    let grown = ((w.map_len().saturating_sub(len_before)) / if cfg!(debug_assertions) { 2048 } else { 4096 * 1024 }) as usize;
                     if grown > 0 {
                         w.growths += grown.min(8);
                         w.grew = true;
